@@ -20,4 +20,6 @@ for f in sorted(glob.glob(os.path.join(V, "seeded", "*", "meta.json"))):
     needs = " ".join(str(m.get("needs", "")).split())[:150]
     print("| %s | %s | %s (%s) | %s | %s | %s |" % (
         os.path.basename(os.path.dirname(f)), m.get("property"), summ.replace("|", "/"), needs.replace("|", "/"),
-        "yes" if m.get("confirmed") else "NO", "yes" if v.get("caught_by_quick") else "NO", how.replace("|", "/")))
+        "yes" if m.get("confirmed") else "NO",
+        "yes" if v.get("caught_by_quick") else ("yes, after strengthening the check" if v.get("caught_by_quick_after_strengthening") else "NO"),
+        how.replace("|", "/")))
